@@ -231,6 +231,21 @@ func init() {
 			return [][]byte{seen, st}, nil
 		}
 	}
+	reuse := func(v6 bool) func(a [][]byte) ([][]byte, error) {
+		return func(a [][]byte) ([][]byte, error) {
+			ra, rb := reuseAfterFullBuffer(v6)
+			var ga, gb []byte
+			if ra.status == 1 {
+				ga = []byte{ra.payload}
+			}
+			if rb.status == 1 {
+				gb = []byte{rb.payload}
+			}
+			return [][]byte{ga, gb}, nil
+		}
+	}
+	register(76, "nclient4 id reused after a full buffer", reuse(false))
+	register(77, "nclient6 id reused after a full buffer", reuse(true))
 	register(74, "nclient4 call with a held matcher", held(false))
 	register(75, "nclient6 call with a held matcher", held(true))
 	props["C10"] = genC10
@@ -278,6 +293,9 @@ func genC10(r *Run) {
 		for k := 0; k < r.N(60, 1500); k++ {
 			a, b := reuseAfterFullBuffer(v6)
 			evals++
+			if k < 3 {
+				r.Add(map[bool]int{false: 76, true: 77}[v6], []byte{10, 11, 12, 13, 14, 15, 16}, []byte{99})
+			}
 			if a.status != 1 || a.payload != 10 {
 				r.Fail("c10-first-acceptable", fmt.Sprintf("v6=%v: held matcher, 7 datagrams, everything acceptable", v6), fmt.Sprintf("first call returned status %d payload %d, want payload 10", a.status, a.payload))
 				break
